@@ -75,3 +75,27 @@ def run(ctx, res):
     res.assumptions = ["default-value literals, source maps and directive applications other than @deprecated are not carried by introspection and are outside the comparison",
                        "meta types (__Schema, ...) are not part of the written JSON",
                        "TsNorm: equality modulo order of union / intersection / object members"]
+
+
+def selftest(ctx):
+    """Binding demonstration: drop one reported file on one route / change one alias on one route; both must be rejected."""
+    import copy
+    vlib.build_harness()
+    vlib.build_cli()
+    c = make_case(ctx, 0)
+    vlib.write_ndjson(ctx.path("cases.ndjson"), [c])
+    vlib.run_harness(["twin", vlib.CLI_BIN, ctx.path("cases.ndjson"), ctx.path("events.ndjson"), ctx.path("proj"), "1"])
+    e = vlib.read_ndjson(ctx.path("events.ndjson"))[0]
+    a = copy.deepcopy(e)
+    a["json"]["check"]["offending"] = a["json"]["check"]["offending"][1:]
+    a["id"] = "mut-verdict"
+    b = copy.deepcopy(e)
+    al = next(x for f in b["json"]["gen"]["files"] for x in f["aliases"] if x["t"]["k"] == "obj")
+    al["t"]["fs"] = al["t"]["fs"][1:]
+    b["id"] = "mut-alias"
+    o = vlib.validate_trace("Trace_C15", "Trace_C15.cfg", [a, b], workdir=ctx.work, nshards=1)
+    got = {(i["id"], i["cls"]) for i in o.items}
+    ok = ("mut-verdict", "verdict-differs") in got and ("mut-alias", "types-differ") in got
+    print("SELFTEST C15: 2 corrupted records, items %s -> %s" % (sorted(got), "ok" if ok else "FAILED"))
+    ctx.cleanup()
+    return 0 if ok else 2
